@@ -38,7 +38,7 @@ def parse_ops(path):
     """-> list of histories: dict(genesis=[...], gvals=[(op,key,tokens)], blocks=[dict(dt,votes,txs,restart)], raw=[lines])"""
     hs = []; cur = None
     lines = [l.rstrip('\n') for l in open(path) if l.strip() and not l.startswith('#')]
-    i = 0; restart = False
+    i = 0; restart = False; pending_admin = None
     while i < len(lines):
         f = lines[i].split()
         if f[0] == 'GENESIS':
@@ -48,11 +48,15 @@ def parse_ops(path):
             for _ in range(n):
                 g = lines[i].split(); cur['gvals'].append((int(g[1]), int(g[2]), int(g[3]))); i += 1
         elif f[0] == 'ADMIN':
-            cur['govadmin'] = len(f) > 1 and f[1] == 'gov'; i += 1
+            if not cur['blocks']:
+                cur['govadmin'] = len(f) > 1 and f[1] == 'gov'
+            else:
+                pending_admin = f[1]
+            i += 1
         elif f[0] == 'RESTART':
             restart = True; i += 1
         elif f[0] == 'BLOCK':
-            b = dict(dt=int(f[1]), votes=[], txs=[], evid=[], restart=restart); restart = False
+            b = dict(dt=int(f[1]), votes=[], txs=[], evid=[], restart=restart, admin=pending_admin); restart = False; pending_admin = None
             nv, nt = int(f[2]), int(f[3]); ne = int(f[4]) if len(f) > 4 else 0; ng = int(f[5]) if len(f) > 5 else 0; i += 1
             for _ in range(nv):
                 v = lines[i].split(); b['votes'].append((int(v[1]), int(v[2]), v[3] == '1')); i += 1
@@ -78,11 +82,14 @@ def parse_ops(path):
             cur['blocks'].append(b)
         elif f[0] == 'END':
             cur['raw'] = lines[cur['start']:i+1]
-            if cur.get('govadmin'):
-                # the admin of this history is the x/gov account: what the gov-executed proposals (listed as the admin's
-                # transactions) do is the admin's doing; the account of the environment override (signer -1) is an ordinary
-                # account here
-                for b in cur['blocks']:
+            # while the admin is the x/gov account (`ADMIN gov`, at genesis or from a restart on): what the gov-executed
+            # proposals (listed as the admin's transactions) do is the admin's doing; the account of the environment override
+            # (signer -1) is an ordinary account then
+            gov_now = bool(cur.get('govadmin'))
+            for b in cur['blocks']:
+                if b.get('admin'):
+                    gov_now = b['admin'] == 'gov'
+                if gov_now:
                     for tx in b['txs']:
                         if tx['signer'] == -1 and not tx.get('gov'):
                             tx['signer'] = -2
